@@ -19,61 +19,118 @@ def run(ctx):
     q = ctx.quick()
     rnd = random.Random(ctx.seed)
     # 1. the transcription of the implemented algorithm (grant history, revoked channels, revoked feed, back-fill, paging,
-    #    token rendering) against the property, exhaustively within small bounds - modulo the one named deviation
-    #    (BackfillMasksRemoval) under which the algorithm itself does not meet the statement
+    #    token rendering) against the property, exhaustively within small bounds - modulo the named deviations under which the
+    #    algorithm itself does not meet the statement (specs/Revocation/NOTES.md).  The same runs export
+    #      CAND  behaviours of the model that break the FULL statement: candidates only - each is replayed on the real database
+    #            and judged by pass P on the real trace
+    #      BEH   one behaviour per distinct model state whose last step completed a pull that delivered a revoked / removed /
+    #            deleted row or a grant back-fill row
+    cands, nontriv = [], []
     for cfg in (MC_QUICK if q else MC_THOROUGH):
-        model_check(ctx, SPEC, "MC_Revocation", cfg, timeout=3000)
+        r = model_check(ctx, SPEC, "MC_Revocation", cfg, timeout=6000)
+        c, b = printed(r, "CAND"), printed(r, "BEH")
+        ctx.cov["model_candidates"] = ctx.cov.get("model_candidates", 0) + len(c)
+        ctx.cov["model_nontrivial_states"] = ctx.cov.get("model_nontrivial_states", 0) + len(b)
+        c.sort(key=lambda x: (len(x), json.dumps(x, sort_keys=True)))
+        cands += [("cand", x) for x in c[:6 if q else 40]]
+        rnd.shuffle(b)
+        nontriv += [("mc", x) for x in b[:110 if q else 1200]]
     ctx.cov["exhaustive"] = True
 
-    # 2. candidates: behaviours of the model that break the FULL statement.  Model counterexamples are candidates only: each
-    #    is replayed on the real database and judged by pass P on the real trace.
-    cands = export(ctx, "Cand_Revocation.cfg", "CAND", workers=1)
-    cands.sort(key=lambda b: (len(b), json.dumps(b, sort_keys=True)))
-    ctx.cov["model_candidates"] = len(cands)
-    cands = cands[:8 if q else 60]
-
-    # 3. behaviours: all action sequences of a tiny instance (seeded sample) + seeded TLC simulations of the full universe
-    small = export(ctx, "Beh_Revocation.cfg", "BEH", workers=4)
+    # 2. more behaviours, generated concurrently: all action sequences of a tiny instance (seeded sample) and seeded TLC
+    #    simulations of the full universe (SimNext: one successor per action kind)
+    gen = parallel([
+        lambda: export(ctx, "Beh_Revocation.cfg", "BEH", workers=2),
+        lambda: simulate(ctx, "Sim_Revocation.cfg", 40 if q else 600, 14),
+        lambda: simulate(ctx, "Sim2_Revocation.cfg", 60 if q else 900, 12),
+    ])
+    small = gen[0]
     rnd.shuffle(small)
-    small = small[:250 if q else 2500]
-    sim = pick_sim(behaviours(ctx, SPEC, "MC_Revocation", "Sim_Revocation.cfg", num=60 if q else 700, depth=14, timeout=3000), rnd, 150 if q else 1800)
-    sim2 = pick_sim(behaviours(ctx, SPEC, "MC_Revocation", "Sim2_Revocation.cfg", num=120 if q else 1200, depth=12, timeout=3000), rnd, 200 if q else 2400)
+    small = small[:60 if q else 800]
+    sim = pick_sim(gen[1], rnd, 100 if q else 1500)
+    sim2 = pick_sim(gen[2], rnd, 150 if q else 2000)
     jobs = [{"id": i, "kind": k, "steps": b} for i, (k, b) in enumerate(
-        [("cand", b) for b in cands] + [("beh", b) for b in small] + [("sim", b) for b in sim] + [("sim2", b) for b in sim2])]
+        cands + nontriv + [("beh", b) for b in small] + [("sim", b) for b in sim] + [("sim2", b) for b in sim2])]
     for k in range(0, len(jobs), CHUNK):
         replay_and_validate(ctx, jobs[k:k + CHUNK], "c%d" % (k // CHUNK))
 
-    ctx.cov["rule"] = ("behaviours = model candidates (shortest first) + a seeded sample of ALL action sequences of length 5 over {u1, d1, A, B} "
-                       "(admin grants, document moves / deletes, pulls) + seeded TLC simulations: length 12 over 2 users / 2 roles / 3 channels / "
-                       "3 documents (admin grants to users and roles, role assignment by admin and by sync function, role deletion and "
-                       "re-creation, channel grants by granting documents, document moves / deletes / resurrection, principal reloads at "
-                       "arbitrary points, pulls with limits 0/1/2 and other actions between the pages of a pull) and length 10 over a "
-                       "1 user / 1 role / 2 channels / 2 documents universe; every behaviour is replayed on one real database, the pull "
-                       "client runs in the harness; non-trivial = a behaviour in which a pull delivered a revoked / removed / deleted row or a "
-                       "grant back-fill row")
+    ctx.cov["rule"] = ("behaviours = model candidates (shortest first) + a seeded sample of the model checker's distinct states that end in a "
+                       "completed pull with a revoked / removed / deleted / back-fill row (4 bounded instances: admin grants + document moves; "
+                       "one role incl. deletion and re-creation; granting documents; paging with other actions between pages) + a seeded sample "
+                       "of ALL action sequences of length 4 over {u1, d1, A, B} + seeded TLC simulations: length 12 over 2 users / 2 roles / "
+                       "3 channels / 3 documents (admin grants to users and roles, role assignment by admin and by sync function, role deletion "
+                       "and re-creation, channel grants by granting documents, document moves / deletes / resurrection, principal reloads at "
+                       "arbitrary points, pulls with limits 0/1/2 and other actions between the pages of a pull) and length 10 over 1 user / "
+                       "1 role / 2 channels / 2 documents; every behaviour is replayed on one real database, the pull client runs in the "
+                       "harness; non-trivial = a behaviour in which a pull delivered a revoked / removed / deleted row or a grant back-fill row")
     ctx.assumptions += [
         "ground truth = admin inputs + the channels / grants each revision was written with + the REAL current revision; the gateway's own "
         "access computation is only cross-checked (pass C: AccessMatches, StoredMatchesInputs)",
         "every action is atomic: no principal recomputation overlaps a write (that schedule is C03's recorded finding), requests run when no "
-        "write is in flight and the change cache has caught up (WaitForPendingChanges)",
+        "write is in flight and the change cache has caught up (WaitForPendingChanges after every step)",
         "the binding loads the puller and every role before a page, so role documents are recomputed at page time rather than lazily inside the "
         "request; extra reloads at arbitrary points are explored (Load)",
         "grant-history pruning (ClientPartitionWindow = 30 days, max entries per grant) and document channel-history compaction "
         "(5 entries per channel) are outside the bounds; one named collection (history of a re-created role is per collection)",
         "the client resumes from the STRING form of the last sequence received (also that of the _user pseudo-row); LowSeq is always 0 "
-        "(no skipped sequences)",
+        "(no skipped sequences); no star channel, no conflicting revisions, the pulling user is never deleted",
         "Rosmar + views stand for the channel / access queries",
     ]
 
 
+def printed(r, tagname):
+    res = set()
+    for t, txt in r.printed:
+        if t == tagname:
+            try:
+                res.add(json.loads(txt))
+            except ValueError:      # a line torn by concurrent workers
+                pass
+    return [json.loads(x) for x in sorted(res)]
+
+
+def parallel(thunks):
+    import threading
+    res, errs = [None] * len(thunks), []
+
+    def work(i):
+        try:
+            res[i] = thunks[i]()
+        except BaseException as ex:   # noqa: re-raised below
+            errs.append(ex)
+    ts = [threading.Thread(target=work, args=(i,)) for i in range(len(thunks))]
+    for t in ts:
+        t.start()
+    for t in ts:
+        t.join()
+    if errs:
+        raise errs[0]
+    return res
+
+
 def export(ctx, cfg, tagname, workers=4):
-    """exhaustive run printing behaviours through an always-true invariant; result sorted (deterministic)"""
-    r = tlc(ctx, SPEC, "MC_Revocation", cfg, timeout=3000, workers=workers)
+    """exhaustive run printing behaviours through an always-true invariant; result sorted (deterministic).
+    (own staging tag: several generators run concurrently)"""
+    r = tlc(ctx, SPEC, "MC_Revocation", cfg, timeout=6000, workers=workers, tag="gen-" + cfg)
     if r.inv_violated:
         raise Inconclusive("behaviour generation %s violated %s" % (cfg, r.inv_violated))
-    res = sorted({json.loads(txt) for t, txt in r.printed if t == tagname})
+    res = printed(r, tagname)
+    if not res:
+        raise Inconclusive("no behaviours exported by %s\n%s" % (cfg, r.out[-800:]))
     log("  TLC %-28s %-30s exported %d distinct behaviours  %.1fs (%d states)" % ("MC_Revocation", cfg, len(res), r.wall, r.distinct))
-    return [json.loads(x) for x in res]
+    return res
+
+
+def simulate(ctx, cfg, num, depth):
+    """like core.behaviours(num=...), with its own staging tag"""
+    r = tlc(ctx, SPEC, "MC_Revocation", cfg, mode="simulate", simulate=num, depth=depth, timeout=6000, tag="gen-" + cfg)
+    if r.inv_violated:
+        raise Inconclusive("behaviour generation %s violated %s" % (cfg, r.inv_violated))
+    res = printed(r, "BEH")
+    if not res:
+        raise Inconclusive("no behaviours exported by %s\n%s" % (cfg, r.out[-800:]))
+    log("  TLC %-28s %-30s exported %d distinct behaviours  %.1fs" % ("MC_Revocation", cfg, len(res), r.wall))
+    return res
 
 
 def pick_sim(sim, rnd, cap):
@@ -172,6 +229,12 @@ DEVIATIONS = {
     "role-created-after-grant": "RoleCreatedAfterGrant: a role that granting documents (and a role() membership) named before it existed was created "
                                 "(or created again); its computed channels keep the granting documents' old sequences, which lie before the client's "
                                 "position, so nothing is back-filled (or revoked documents are not restored) when the role comes into existence",
+    "revocation-token-jumps-rows": "RevocationTokenJumpsRows: a revocation row for a document changed after the revocation carries Seq >= TriggeredBy; "
+                                   "it is merged at TriggeredBy but SequenceID.String() renders it as plain Seq, so a page (limit) ending with it "
+                                   "makes the client resume behind rows with sequences between TriggeredBy and Seq that were not sent yet",
+    "deleted-role-periods-ignored": "DeletedRolePeriodsIgnored: auth/user.go CollectionChannelGrantedPeriods considers current (not deleted) roles and "
+                                    "the role history; a deleted role the user still names is in neither, so for a document changed after the "
+                                    "role's deletion wasDocInChannelPriorToRevocation finds no granted period and the revocation is not sent",
 }
 
 
